@@ -61,6 +61,7 @@ func registerGroups() {
 	groups["LEX"] = runLEX
 	groups["ERRFMT"] = runERRFMT
 	groups["LIMIT"] = runLIMIT
+	groups["ERRPOS"] = runERRPOS
 }
 
 func doReplay(e *Env, line string) int {
